@@ -126,7 +126,7 @@ def gen_expr(rng, j):
     return dict(first=first, rest=rest)
 
 
-def gen_ws(rng, small=False):
+def gen_ws(rng, small=False, links=False):
     njobs = rng.choice([0, 1, 2, 2, 3, 3, 4, 5, 6] if not small else [1, 2, 3])
     keys, jobs = set(), []
     tasks = rng.sample(TASKS, rng.choice([1, 2, 2, 3]))
@@ -137,6 +137,17 @@ def gen_ws(rng, small=False):
         keys.add((t, h))
         jobs.append(gen_job(rng, t, h))
     keys = sorted(keys)
+    lks = []
+    if links and keys:
+        # entries of jobs/<task>/ that are links to a job directory, as `deprecated list --fix` leaves them
+        # (jobs/<new task>/<new id> -> jobs/<old task>/<old id>); now and then the directory behind is gone
+        for _ in range(rng.choice([1, 1, 2, 3])):
+            t, h = rng.choice(TASKS), rng.choice(HASHES)
+            if (t, h) in keys or any((t, h) == (l["task"], l["hash"]) for l in lks):
+                continue
+            to = list(rng.choice(keys)) if rng.random() < 0.9 else [rng.choice(TASKS), "ffff"]
+            lks.append(dict(task=t, hash=h, to=to))
+        keys = sorted(set(keys) | {(l["task"], l["hash"]) for l in lks})
     xps = []
     for name in rng.sample(XPS, rng.choice([0, 1, 1, 2, 2, 3])):
         def subset():
@@ -149,6 +160,8 @@ def gen_ws(rng, small=False):
                     out.append(k)
             return out
         xps.append(dict(name=name, jobs=subset(), bak=subset() if rng.random() < 0.4 else None))
+    if lks:
+        return dict(jobs=jobs, xps=xps, links=lks)
     return dict(jobs=jobs, xps=xps)
 
 
@@ -267,6 +280,32 @@ def g_ob(r):
     return "None" if r["v"] is None else f"(Some {gbool(r['v'])})"
 
 
+def g_table(e):
+    """the regular expressions of the chain: source text as it stands between the quotes -> pattern"""
+    out = []
+    for a in (atoms_of(e) if e is not None else []):
+        if a["k"] == "regex":
+            src = ("^" if a["bol"] else "") + re_text(a["re"]) + ("$" if a["eol"] else "")
+            out.append(f"({g_str(src)}, {{| p_re := {g_re(a['re'])}; p_eol := {gbool(a['eol'])} |}})")
+    return glist(out)
+
+
+def g_view(cv):
+    """a case as the model is asked about it: through its expression ("ast") or through its text ("text")"""
+    c, view = cv
+    if view == "ast":
+        return g_case(c)
+    a = c["ans"]
+    if c["kind"] == "near":
+        return (f"CParse {g_str(c['text'])} {g_table(c['expr'])} {g_job(c['job'])} {gbool(a['accepted'])} "
+                f"{'None' if a['v'] is None else '(Some %s)' % gbool(a['v'])}")
+    if c["kind"] == "filter":
+        return (f"CParse {g_str(c['text'])} {g_table(c['expr'])} {g_job(c['job'])} {gbool(a['whole']['exc'] is None)} "
+                f"{g_ob(a['whole'])}")
+    return (f"CCleanText {g_ws(c['ws'])} {g_str(c['experiment'] or '')} {g_str(c['text'])} {g_table(c['expr'])} "
+            f"{gbool(c['perform'])} {gbool(a['exc'] is not None)} {glist(g_key(k) for k in a['removed'])}")
+
+
 def g_case(c):
     a = c["ans"]
     if c["kind"] == "filter":
@@ -279,6 +318,10 @@ def g_case(c):
         o = (f"{{| o_experiment := {g_str(c['experiment'] or '')}; o_filter := {flt}; "
              f"o_perform := {gbool(c['perform'])} |}}")
         return f"CClean {g_ws(c['ws'])} {o} {gbool(a['exc'] is not None)} {glist(g_key(k) for k in a['removed'])}"
+    if c["ws"].get("links"):
+        lks = glist(f"({g_key([l['task'], l['hash']])}, {g_key(l['to'])})" for l in c["ws"]["links"])
+        return (f"COrphansL {g_ws(c['ws'])} {lks} {gbool(c['clean'])} {gbool(c['ignore_old'])} "
+                f"{gbool(a['exc'] is not None)} {glist(g_key(k) for k in a['removed'])}")
     return (f"COrphans {g_ws(c['ws'])} {gbool(c['clean'])} {gbool(c['ignore_old'])} "
             f"{glist(g_key(k) for k in a['removed'])}")
 
@@ -310,6 +353,240 @@ def o_expr(e, j):
     return acc
 
 
+# ------------------------------------------------------------------ strings near the grammar
+# A text that is not in the documented grammar (or sits on its edge) is either rejected -- createFilter raises, nothing is
+# evaluated, nothing is deleted -- or it is evaluated with the meaning its spelling has: a keyword in another case is that
+# keyword, && is and, a bracketed sub-chain is evaluated first, != is the negation of =.  `reading` is that meaning as a tree
+# (["atom", a] | ["not", t] | ["and", t, u] | ["or", t, u]); None = no reading, the text must be rejected.
+def malformed_cause(text, label):
+    """why an unreadable text may have been accepted: `and`/`or` taken out of a longer word (`"a" order = "b"` read as
+    `"a" or der = "b"`), else the way the text was derived"""
+    bare = re.sub(r'"[^"]*"|\'[^\']*\'', '""', text or "")
+    if re.search(r"(and|or)[A-Za-z0-9_$]|[A-Za-z0-9_$](and|or)", bare):
+        return "keyword-inside-word"
+    return label
+
+
+def chain_tree(e):
+    t = ["atom", e["first"]]
+    for op, a in e["rest"]:
+        t = [op, t, ["atom", a]]
+    return t
+
+
+def o_tree(t, j):
+    k = t[0]
+    if k == "atom":
+        return o_atom(t[1], j)
+    if k == "not":
+        return not o_tree(t[1], j)
+    if k == "and":
+        return o_tree(t[1], j) and o_tree(t[2], j)
+    return o_tree(t[1], j) or o_tree(t[2], j)
+
+
+def recase(rng, w):
+    """another spelling of the keyword w, differing by case only"""
+    outs = {w.upper(), w.capitalize(), w.title(), w[:-1] + w[-1].upper(),
+            "".join(ch.upper() if i % 2 else ch for i, ch in enumerate(w))} - {w}
+    return rng.choice(sorted(outs))
+
+
+def atom_text_near(rng, a, kw=None, eqsym=None, var=None, bra="[]", sep=","):
+    """atom_text with one token spelled differently"""
+    w = lambda: ws_(rng)
+    v = var if var is not None else a["v"]
+    if a["k"] == "eq":
+        o = a["o"]
+        rhs = o["var"] if "var" in o else quote(rng, o["const"])
+        return f"{v}{w()}{eqsym or '='}{w()}{rhs}"
+    if a["k"] in ("in", "notin"):
+        items = (w() + sep + w()).join(quote(rng, s) for s in a["l"])
+        k = kw if kw is not None else ("in" if a["k"] == "in" else "not in")
+        return f"{v} {w()}{k}{w()}{bra[0]}{w()}{items}{w()}{bra[1]}"
+    body = ("^" if a["bol"] else "") + re_text(a["re"]) + ("$" if a["eol"] else "")
+    return f"{v}{w()}{eqsym or '~'}{w()}{quote(rng, body)}"
+
+
+def force_kind(rng, e, j, kinds, i=None):
+    """make sure the chain has a test of one of the kinds; returns its index"""
+    ats = atoms_of(e)
+    idx = [k for k, a in enumerate(ats) if a["k"] in kinds and (i is None or k == i)]
+    if idx:
+        return rng.choice(idx)
+    k = rng.randrange(len(ats)) if i is None else i
+    while True:
+        a = gen_atom(rng, j)
+        if a["k"] in kinds:
+            break
+    if k == 0:
+        e["first"] = a
+    else:
+        e["rest"][k - 1][1] = a
+    return k
+
+
+NEAR_LABELS = ["op-case", "op-case", "op-case", "op-symbol", "kw-case", "kw-case", "notin-spelling", "eq-symbol", "neq-symbol",
+               "var-case", "paren-whole", "paren-sub", "not-prefix", "no-spaces", "odd-whitespace", "bracket-kind",
+               "tag-nonalpha", "trailing-op", "leading-op", "double-op", "missing-bracket", "trailing-comma", "empty-list",
+               "unclosed-quote", "junk-suffix", "missing-operand", "comma-join", "list-no-commas", "in-string", "regex-var"]
+
+
+def gen_near(rng, j, label=None):
+    """(base chain, text near the grammar, reading, label)"""
+    label = label or rng.choice(NEAR_LABELS)
+    e = gen_expr(rng, j)
+    e["rest"] = e["rest"][:rng.choice([0, 1, 1, 2, 2, 3])]
+    if label in ("op-case", "op-symbol", "double-op", "comma-join", "no-spaces") and not e["rest"]:
+        e["rest"].append([rng.choice(["and", "or"]), gen_atom(rng, j)])
+    if label == "paren-sub":
+        while len(e["rest"]) < 2:
+            e["rest"].append([rng.choice(["and", "or"]), gen_atom(rng, j)])
+        if e["rest"][0][0] == e["rest"][1][0]:               # make the bracketing matter
+            e["rest"][1][0] = "or" if e["rest"][0][0] == "and" else "and"
+    ats = atoms_of(e)
+    texts = [atom_text(rng, a) for a in ats]
+    ops = [op for op, _ in e["rest"]]
+    reading = "chain"
+
+    def join(texts, ops, sp=lambda: " " + ws_(rng)):
+        out = texts[0]
+        for op, t in zip(ops, texts[1:]):
+            out += sp() + op + sp() + t
+        return out
+
+    if label == "op-case":
+        i = rng.randrange(len(ops))
+        ops[i] = recase(rng, ops[i])
+        text = join(texts, ops)
+    elif label == "op-symbol":
+        i = rng.randrange(len(ops))
+        ops[i] = rng.choice(["&&", "&"] if ops[i] == "and" else ["||", "|"])
+        text = join(texts, ops)
+    elif label == "kw-case":
+        i = force_kind(rng, e, j, ("in", "notin"))
+        a = atoms_of(e)[i]
+        kw = recase(rng, "in") if a["k"] == "in" else rng.choice(["NOT IN", "Not in", "not IN", "NOT in", "Not In"])
+        texts[i] = atom_text_near(rng, a, kw=kw)
+        text = join(texts, ops)
+    elif label == "notin-spelling":
+        i = force_kind(rng, e, j, ("notin",))
+        texts[i] = atom_text_near(rng, atoms_of(e)[i], kw=rng.choice(["not  in", "not\tin", "notin", "not_in", "not-in", "!in", "not\nin"]))
+        text = join(texts, ops)
+    elif label in ("eq-symbol", "neq-symbol"):
+        i = force_kind(rng, e, j, ("eq",))
+        a = atoms_of(e)[i]
+        sym = rng.choice(["==", ":", "is", "= ="]) if label == "eq-symbol" else rng.choice(["!=", "<>"])
+        texts[i] = atom_text_near(rng, a, eqsym=(" " + sym + " ") if sym == "is" else sym)
+        text = join(texts, ops)
+        if label == "neq-symbol":
+            reading = ("negate", i)
+    elif label == "var-case":
+        i = rng.randrange(len(ats))
+        a = atoms_of(e)[i]
+        a["v"] = rng.choice(["@state", "@name"])
+        if a["k"] == "eq" and "const" in a["o"]:
+            a["o"]["const"] = near(rng, a["v"], j)
+        texts[i] = atom_text_near(rng, a, var=rng.choice([a["v"].upper(), "@" + a["v"][1:].capitalize()]))
+        text = join(texts, ops)
+    elif label == "paren-whole":
+        text = "(" + ws_(rng) + join(texts, ops) + ws_(rng) + ")"
+    elif label == "paren-sub":
+        # a op1 (b op2 c ...) : the bracketed sub-chain is evaluated first
+        k = rng.randrange(1, len(ats) - 1) if len(ats) > 2 else 1
+        text = join(texts[:k] + ["(" + ws_(rng) + join(texts[k:], ops[k:]) + ws_(rng) + ")"], ops[:k])
+        reading = ("bracket", k)
+    elif label == "not-prefix":
+        text = "not " + ws_(rng) + join(texts, ops)
+        reading = ("negate", 0)
+    elif label == "no-spaces":
+        text = join(texts, ops, sp=lambda: "")
+    elif label == "odd-whitespace":
+        sep = rng.choice(["\x0b", "\x0c", "\xa0", "\u2003", "\r\n", "\r", "\n\n"])
+        if ops:
+            i = rng.randrange(len(ops))
+            ops[i] = sep + ops[i] if rng.random() < 0.5 else ops[i] + sep
+            text = join(texts, ops, sp=lambda: "")
+            text = text if rng.random() < 0.5 else sep + text
+        else:
+            text = sep + texts[0] if rng.random() < 0.5 else texts[0] + sep
+    elif label == "bracket-kind":
+        i = force_kind(rng, e, j, ("in", "notin"))
+        texts[i] = atom_text_near(rng, atoms_of(e)[i], bra=rng.choice(["()", "{}", "<>"]))
+        text = join(texts, ops)
+    elif label == "tag-nonalpha":
+        i = rng.randrange(len(ats))
+        a = atoms_of(e)[i]
+        a["v"] = rng.choice(["x_1", "x1", "lr2", "my-tag", "a.b", "x y"])
+        texts[i] = atom_text_near(rng, a)
+        text = join(texts, ops)
+        reading = None if a["v"] == "x y" else "chain"
+    else:
+        reading = None
+        base = join(texts, ops)
+        op = rng.choice(["and", "or"])
+        if label == "trailing-op":
+            text = base + " " + op + ws_(rng)
+        elif label == "leading-op":
+            text = ws_(rng) + op + " " + base
+        elif label == "double-op":
+            i = rng.randrange(len(ops))
+            ops[i] = ops[i] + " " + rng.choice(["and", "or"])
+            text = join(texts, ops)
+        elif label in ("missing-bracket", "trailing-comma", "empty-list", "list-no-commas", "in-string"):
+            i = force_kind(rng, e, j, ("in", "notin"))
+            a = atoms_of(e)[i]
+            if label == "missing-bracket":
+                t = atom_text_near(rng, a, bra=rng.choice([["[", ""], ["", "]"], ["", ""], ["[", "]]"], ["[[", "]"]]))
+            elif label == "trailing-comma":
+                t = atom_text_near(rng, a, bra=["[", rng.choice([",]", ", ]", ",,]"])])
+                if rng.random() < 0.3:
+                    t = atom_text_near(rng, a, bra=[rng.choice(["[,", "[ ,"]), "]"])
+            elif label == "empty-list":
+                t = atom_text_near(rng, dict(a, l=[]))
+            elif label == "list-no-commas":
+                t = atom_text_near(rng, dict(a, l=(a["l"] + a["l"])[:max(2, len(a["l"]))]), sep=rng.choice([" ", ";", "|", ""]))
+            else:
+                t = atom_text_near(rng, dict(a, l=a["l"][:1]), bra=["", ""])
+            texts[i] = t
+            text = join(texts, ops)
+        elif label == "unclosed-quote":
+            q = rng.choice("\"'")
+            text = base + " " + op + " x = " + q + rng.choice(["a", "", "a b"]) + rng.choice(["", {"'": '"', '"': "'"}[q]])
+        elif label == "junk-suffix":
+            text = base + rng.choice([" xyz", ";", ")", " ]", ",", " =", " \"a\"", " 1", ".", " #c"])
+        elif label == "missing-operand":
+            text = rng.choice([base + " " + op + " x =", base + " " + op + " = \"a\"", "= \"a\"", "x =", "x", "\"a\"",
+                               "x in", "x ~", base + " " + op + " x", "", " ", "\t"])
+        elif label == "comma-join":
+            i = rng.randrange(len(ops))
+            ops[i] = rng.choice([",", ";", ""])
+            text = join(texts, ops)
+        else:   # regex-var: the pattern of ~ is not a quoted string
+            text = base + " " + op + " x ~ " + rng.choice(["y", "a.*", "/a/", "[\"a\"]"])
+    e2 = dict(first=atoms_of(e)[0], rest=[[op, a] for (op, _), a in zip(e["rest"], atoms_of(e)[1:])])
+    if reading == "chain":
+        tree = chain_tree(e2)
+    elif reading is None:
+        tree = None
+    elif reading[0] == "negate":
+        ats2 = atoms_of(e2)
+        tree = ["atom", ats2[0]] if reading[1] != 0 else ["not", ["atom", ats2[0]]]
+        for k, (op, a) in enumerate(e2["rest"], start=1):
+            tree = [op, tree, ["not", ["atom", a]] if reading[1] == k else ["atom", a]]
+    else:   # bracket at k
+        k = reading[1]
+        ats2 = atoms_of(e2)
+        left = ["atom", ats2[0]]
+        for op, a in e2["rest"][:k - 1]:
+            left = [op, left, ["atom", a]]
+        right = ["atom", ats2[k]]
+        for op, a in e2["rest"][k:]:
+            right = [op, right, ["atom", a]]
+        tree = [e2["rest"][k - 1][0], left, right]
+    return dict(expr=e2, text=text, reading=tree, label=label)
+
+
 def hides_live(j):
     return (not j["done"]) and j["failed"] and j["pid"] and j["alive"]
 
@@ -318,6 +595,8 @@ def blame(case, ans, k=None):
     """kind of the first test of the filter that, on its own, raises / answers wrongly on job k"""
     if case["expr"] is None:
         return "other"
+    if case.get("near"):
+        return "near-grammar:" + case["near"]["label"]
     jobs = {(j["task"], j["hash"]): j for j in case["ws"]["jobs"]}
     for a, r in zip(atoms_of(case["expr"]), ans.get("atoms") or []):
         if k is None:
@@ -361,12 +640,43 @@ def oracle(case, ans):
         if atom_ok and (r["exc"] is not None or r["v"] != want):
             out.append(("C19:filter:chain-wrong", f"every test is right but the and/or chain answers {r} instead of {want}"))
         return out
+    if kind == "near":
+        lab, rd = case["label"], case["reading"]
+        if not ans["accepted"]:
+            return out                                   # rejected: nothing is evaluated
+        if rd is None:
+            out.append((f"C19:filter:accepts-malformed:{malformed_cause(case['text'], lab)}",
+                        "createFilter accepts a text that has no reading in the filter language"))
+        elif ans["eval_exc"] is not None:
+            out.append((f"C19:filter:near-grammar-raises:{lab}",
+                        f"the text is accepted, then evaluating it raises {ans['eval_exc']}"))
+        elif ans["v"] != o_tree(rd, case["job"]):
+            out.append((f"C19:filter:near-grammar-wrong:{lab}",
+                        f"the text is accepted but answers {ans['v']} where what is written means {o_tree(rd, case['job'])}"))
+        return out
     w = case["ws"]
     removed = [tuple(k) for k in ans["removed"]]
     jobs = {(j["task"], j["hash"]): j for j in w["jobs"]}
-    if ans["extra_removed"] or ans["created"]:
-        out.append((f"C19:{kind}-collateral", "paths outside the removed job directories changed"))
+    if kind == "clean" and (ans["extra_removed"] or ans["created"]):
+        out.append(("C19:clean-collateral", "paths outside the removed job directories changed"))
     if kind == "clean":
+        near_ = case.get("near")
+        sel = (lambda jj: o_expr(case["expr"], jj)) if case["expr"] is not None else (lambda jj: True)
+        if near_ is not None:
+            # the filter is a text near the grammar: rejected (the command fails before it touches anything) or
+            # evaluated as what is written
+            if ans["accepts"] is False:
+                if removed:
+                    out.append(("C19:clean-removes-after-reject", "jobs clean removed directories although the filter was rejected"))
+                if ans["exc"] is None:
+                    out.append(("C19:clean-ignores-rejected-filter", "jobs clean goes on although createFilter rejects the filter"))
+                return out
+            if near_["reading"] is None:
+                out.append((f"C19:clean-accepts-malformed:{malformed_cause(case['text'], near_['label'])}",
+                            "jobs clean accepts a filter that has no reading in the filter language"))
+                sel = lambda jj: False                                             # noqa: E731
+            else:
+                sel = lambda jj: o_tree(near_["reading"], jj)                      # noqa: E731
         if ans["exc"] is not None:
             out.append((f"C19:clean-raises:{blame(case, ans)}", f"jobs clean raises {ans['exc']}"))
         want = set()
@@ -378,7 +688,7 @@ def oracle(case, ans):
             if case["experiment"] and not any(x["name"] == case["experiment"] and list(k) in x["jobs"]
                                               for x in w["xps"]):
                 continue
-            if case["expr"] is not None and not o_expr(case["expr"], j):
+            if not sel(j):
                 continue
             want.add(k)
         for k in removed:
@@ -402,19 +712,33 @@ def oracle(case, ans):
                 out.append((f"C19:clean-misses-selected:{blame(case, ans, k)}",
                             "jobs clean --perform kept a finished job that is selected"))
         return out
-    # orphans
-    if ans["exc"] is not None:
-        out.append(("C19:orphans-raises", f"orphans raises {ans['exc']}"))
-    ref = set()
+    # orphans.  An entry of jobs/<task>/ may be a link to a job directory (deprecated list --fix): the job directory an
+    # index entry refers to is the one the entry resolves to; a link is not a job directory.
+    links = {(l["task"], l["hash"]): tuple(l["to"]) for l in w.get("links", [])}
+    refkeys = set()
     for x in w["xps"]:
-        ref.update(tuple(k) for k in x["jobs"])
+        refkeys.update(tuple(k) for k in x["jobs"])
         if not case["ignore_old"]:
-            ref.update(tuple(k) for k in (x["bak"] or []))
+            refkeys.update(tuple(k) for k in (x["bak"] or []))
+    ref = {links.get(k, k) for k in refkeys}
+    orphan_links = [k for k, t in links.items() if k not in refkeys and t in jobs]
+    if ans["exc"] is not None:
+        out.append(("C19:orphans-raises:link-entry" if (orphan_links and case["clean"]) else "C19:orphans-raises",
+                    f"orphans raises {ans['exc']}"))
+    # a link that is in no index may go (it is not a job directory); anything else that changed is collateral
+    may_go = {f"jobs/{t}/{h}" for (t, h) in links if (t, h) not in refkeys} if case["clean"] else set()
+    if set(ans["extra_removed"]) - may_go or ans["created"]:
+        out.append(("C19:orphans-collateral", "paths outside the removed job directories changed"))
     want = {k for k in jobs if k not in ref} if case["clean"] else set()
     for k in removed:
         if k not in want:
-            out.append(("C19:orphans-removes-referenced" if case["clean"] else "C19:orphans-without-clean",
-                        "orphans removed a job directory it must keep"))
+            if not case["clean"]:
+                out.append(("C19:orphans-without-clean", "orphans removed a job directory it must keep"))
+            elif k in refkeys:
+                out.append(("C19:orphans-removes-referenced", "orphans removed a job directory it must keep"))
+            else:
+                out.append(("C19:orphans-removes-referenced:through-link",
+                            "orphans removed a job directory that an index entry leads to through a link"))
     if ans["exc"] is None and want - set(removed):
         out.append(("C19:orphans-misses-orphan", "orphans --clean kept a directory no index refers to"))
     return out
@@ -424,6 +748,8 @@ def oracle(case, ans):
 def payload_case(c):
     if c["kind"] == "filter":
         return dict(kind="filter", text=c["text"], atom_texts=c["atom_texts"], job=c["job"])
+    if c["kind"] == "near":
+        return dict(kind="near", text=c["text"], job=c["job"])
     if c["kind"] == "clean":
         return dict(kind="clean", ws=c["ws"], experiment=c["experiment"], filter=c["text"], perform=c["perform"],
                     flags=c.get("flags", []), atom_texts=c.get("atom_texts"))
@@ -461,7 +787,8 @@ def with_texts(rng, c):
         c["text"] = expr_text(rng, c["expr"])
         c["atom_texts"] = [atom_text(rng, a) for a in atoms_of(c["expr"])]
     elif c["kind"] in ("clean", "real"):
-        c["text"] = None if c["expr"] is None else expr_text(rng, c["expr"])
+        if not c.get("near"):
+            c["text"] = None if c["expr"] is None else expr_text(rng, c["expr"])
         c["atom_texts"] = None if c["expr"] is None else [atom_text(rng, a) for a in atoms_of(c["expr"])]
     return c
 
@@ -476,7 +803,7 @@ def candidates(case):
         out.append(x)
 
     e = case.get("expr")
-    if e is not None:
+    if e is not None and case["kind"] != "near" and not case.get("near"):     # a text near the grammar is kept as it is
         ats = atoms_of(e)
         if len(ats) > 1:
             for a in ats:
@@ -484,7 +811,7 @@ def candidates(case):
             put(lambda x: x["expr"]["rest"].pop())
         if case["kind"] == "clean":
             put(lambda x: x.update(expr=None))
-    if case["kind"] == "filter":
+    if case["kind"] in ("filter", "near"):
         for t in list(case["job"]["tags"]):
             put(lambda x, t=t: x["job"]["tags"].pop(t))
         return out
@@ -498,6 +825,8 @@ def candidates(case):
                 put(lambda x, i=i, sub=sub, k=k: x["ws"]["xps"][i][sub].pop(k))
         if w["xps"][i]["bak"] is not None:
             put(lambda x, i=i: x["ws"]["xps"][i].update(bak=None))
+    for i in range(len(w.get("links", []))):
+        put(lambda x, i=i: x["ws"]["links"].pop(i))
     for i, j in enumerate(w["jobs"]):
         if j["tags"]:
             put(lambda x, i=i: x["ws"]["jobs"][i].update(tags={}))
@@ -586,10 +915,10 @@ def run(c: Check):
         rp = json.load(open(c.replay))["replay"]
         if isinstance(rp, dict) and "case" in rp:
             cases.append(rp["case"])
-        nf, nc, no = 0, 0, 0
+        nf, nc, no, nn = 0, 0, 0, 0
     else:
         cases += golden_cases() + sweep_cases() + (real_cases()[:3] if c.quick else real_cases())
-        nf, nc, no = (1200, 500, 300) if c.quick else (30000, 9000, 5000)
+        nf, nc, no, nn = (1200, 500, 300, 600) if c.quick else (30000, 9000, 5000, 12000)
     rng = c.rng
     for _ in range(nf):
         j = gen_job(rng)
@@ -603,8 +932,19 @@ def run(c: Check):
         exp = None if r < 0.45 else (rng.choice(w["xps"])["name"] if w["xps"] and r < 0.9 else rng.choice(XPS + [""]))
         cases.append(dict(kind="clean", ws=w, experiment=exp, expr=e, perform=rng.random() < 0.75,
                           flags=[f for f in ("--tags", "--fullpath", "--ready") if rng.random() < 0.15]))
+        if rng.random() < 0.2:                   # the filter is a text near the grammar
+            while True:
+                nr = gen_near(rng, rng.choice(w["jobs"]) if w["jobs"] else gen_job(rng))
+                if nr["text"] != "":             # --filter "" is "no filter"
+                    break
+            cases[-1].update(expr=nr["expr"], text=nr["text"], near=dict(label=nr["label"], reading=nr["reading"]),
+                             perform=rng.random() < 0.9)
+    for _ in range(nn):
+        j = gen_job(rng)
+        cases.append(dict(kind="near", job=j, **gen_near(rng, j)))
     for _ in range(no):
-        cases.append(dict(kind="orphans", ws=gen_ws(rng), clean=rng.random() < 0.8, ignore_old=rng.random() < 0.25,
+        cases.append(dict(kind="orphans", ws=gen_ws(rng, links=rng.random() < 0.4), clean=rng.random() < 0.8,
+                          ignore_old=rng.random() < 0.25,
                           show_all=rng.random() < 0.2))
     for x in cases:
         x.pop("ans", None)
@@ -621,6 +961,13 @@ def run(c: Check):
         kind = case["kind"]
         c.count("kind:" + kind)
         e = case.get("expr")
+        if kind == "near" or case.get("near"):
+            lab = case["label"] if kind == "near" else case["near"]["label"]
+            acc = a["accepted"] if kind == "near" else a["accepts"]
+            c.count(f"near-grammar:{lab}:{'accepted' if acc else 'rejected'}")
+            if kind == "near":
+                c.nontrivial.add(json.dumps([case["text"], case["job"]], sort_keys=True))
+                e = None
         if e is not None:
             ats = atoms_of(e)
             c.count(f"{kind}:tests={len(ats)}")
@@ -629,7 +976,9 @@ def run(c: Check):
                 c.count("var:" + (at["v"] if at["v"].startswith("@") else "tag"))
             ops = {op for op, _ in e["rest"]}
             c.count("chain:" + ("single" if not ops else "mixed" if len(ops) == 2 else "all-" + ops.pop()))
-        if kind == "filter":
+        if kind == "near":
+            pass
+        elif kind == "filter":
             c.count("filter-answer:" + str(a["whole"]["v"]))
             c.count("state:" + str(true_state(case["job"])))
             if len(atoms_of(e)) >= 2 or e["first"]["k"] != "eq":
@@ -653,7 +1002,7 @@ def run(c: Check):
                 c.nontrivial.add(json.dumps({k: v for k, v in case.items() if k not in ("ans", "text", "atom_texts")},
                                             sort_keys=True))
         if e is not None and kind == "filter":
-            for at, r in zip(atoms_of(e), a["atoms"]):
+            for at, r in zip(atoms_of(case["expr"]), a["atoms"]):
                 c.count(f"test-answer:{at['k']}:{r['v']}")
         for key, what in oracle(case, a):
             c.count("oracle:" + key)
@@ -663,13 +1012,24 @@ def run(c: Check):
             small = shrink(c, case, key) if not c.replay else case
             c.violation(key, what, dict(case={k: v for k, v in small.items() if k != "ans"}, answer=small["ans"],
                                         original_text=case.get("text")))
-    for kind in ("filter", "clean", "orphans"):
+    for kind in ("filter", "near", "clean", "orphans"):
         for x in [x for x in cases if x["kind"] == kind][-2:]:
             c.samples.append({k: v for k, v in x.items() if k != "atom_texts"})
     header = ("From Coq Require Import NArith List Bool.\nFrom XV Require Import model.Filter model.Clean corr.CleanCorr.\n"
               "Import ListNotations.\nOpen Scope N_scope.\n")
-    bad = c.corr_shards("corr", header, cases, g_case, "check_case", shard=300)
-    c.extra["disagreeing_cases"] = [{k: v for k, v in cases[i].items() if k != "atom_texts"} for i in bad[:5]]
+    # every case is put to the model through its expression; the cases with a filter text also through the text
+    # (character-level grammar of model/FilterParse.v) -- the texts near the grammar only that way
+    views = []
+    for x in cases:
+        if x["kind"] != "near" and not x.get("near"):
+            views.append((x, "ast"))
+        if x["kind"] in ("near", "filter") or (x["kind"] == "clean" and x.get("text")):
+            views.append((x, "text"))
+            c.count("model-view:text")
+    header = header.replace("model.Clean corr", "model.Clean model.FilterParse corr")
+    bad = c.corr_shards("corr", header, views, g_view, "check_case", shard=300)
+    c.extra["disagreeing_cases"] = [dict({k: v for k, v in views[i][0].items() if k != "atom_texts"}, view=views[i][1])
+                                    for i in bad[:5]]
     c.level_assumptions = [
         "pyparsing, click and Python's re are trusted; the filter grammar is modelled by its meaning (the character-level "
         "parser is exercised by the correspondence run, not modelled); regular expressions are covered for the subset "
